@@ -79,6 +79,13 @@ Definition c10_decode_class (returned panicked : list bool) : N :=
   if existsb (fun b => b) panicked then 2%N
   else if forallb (fun b => b) returned then 0%N else 13%N.
 
+(* "A server keeps serving for every sequence of well-formed and malformed datagrams ...: it never crashes".  The
+   server of a run lives in a process of its own; [reason] says how that process ended before the run was over
+   (1 = the Go runtime reported a panic or a fatal error, 2 = it ended in another way, 3 = it had to be killed after
+   the watchdog on the whole run).  A server process that is gone has crashed, whatever was sent to it: class 2;
+   one that had to be killed no longer serves: class 1. *)
+Definition c10_crash_class (reason : Z) : N := if reason =? 3 then 1%N else 2%N.
+
 (* "messages from one remote address are handled by one logical connection ... in arrival order": a peer sends the
    requests number 0 .. n-1 back to back from one socket (more of them than the connection's received-message queue
    holds, while the application is busy); [order] = the numbers in the order the application saw them.  Every request
